@@ -165,7 +165,7 @@ type exec struct {
 	finished bool
 	doneCh   chan struct{}
 	res      *Result
-	objIDs   map[unsafe.Pointer]int
+	objIDs   ptrTab
 	rand     uint64
 	pools    []*Pool
 	hb       *hbState
@@ -183,12 +183,7 @@ func (e *exec) objID(p unsafe.Pointer) int {
 	if p == nil {
 		return 0
 	}
-	id, ok := e.objIDs[p]
-	if !ok {
-		id = len(e.objIDs) + 1
-		e.objIDs[p] = id
-	}
-	return id
+	return e.objIDs.id(p)
 }
 
 // Run executes body on managed thread 0 under the given options and returns
@@ -209,7 +204,7 @@ func Run(opts Options, body func()) *Result {
 		opts.Strategy = DefaultStrategy{}
 	}
 	e := &exec{opts: opts, now: opts.Start, horizon: opts.Horizon, doneCh: make(chan struct{}),
-		res: &Result{}, objIDs: map[unsafe.Pointer]int{}, rand: opts.Seed*2862933555777941757 + 3037000493}
+		res: &Result{}, rand: opts.Seed*2862933555777941757 + 3037000493}
 	if opts.TrackHB {
 		e.hb = newHB()
 	}
@@ -223,25 +218,21 @@ func Run(opts Options, body func()) *Result {
 	<-e.doneCh
 	raceEnable()
 	e.res.Races = raceErrors() - races0
-	// abort sweep: wake every unfinished goroutine, one at a time, in abort mode
+	// The execution is over and its race count taken. Abort sweep: wake every
+	// unfinished goroutine, one at a time, in abort mode. From here on the
+	// synchronisation is deliberately visible to the race detector, so that
+	// the caller happens-after everything the execution did.
 	e.aborting = true
 	for i := 0; i < len(e.threads); i++ {
 		t := e.threads[i]
-		select {
-		case <-t.exited:
-			continue
-		default:
-		}
 		if t.state != stDone {
 			e.res.Blocked = append(e.res.Blocked, ThreadInfo{t.id, t.parent, t.name, t.app, t.why})
 		}
-		raceDisable()
 		select {
 		case t.wake <- struct{}{}:
 		default:
 		}
 		<-t.exited
-		raceEnable()
 	}
 	for _, p := range e.pools {
 		p.reset()
@@ -289,24 +280,18 @@ func threadMain(e *exec, t *thread, f func()) {
 func threadExit(e *exec, t *thread) {
 	r := recover()
 	if e.aborting {
-		raceDisable()
 		close(t.exited)
-		raceEnable()
 		return
 	}
 	if r != nil {
 		e.res.Panics = append(e.res.Panics, PanicInfo{t.id, t.name, fmt.Sprint(r), trimStack(string(debug.Stack()))})
 		t.state = stDone
 		e.finish()
-		raceDisable()
 		close(t.exited)
-		raceEnable()
 		return
 	}
 	if !t.started {
-		raceDisable()
 		close(t.exited)
-		raceEnable()
 		return
 	}
 	// normal exit (or Goexit from user code)
@@ -324,9 +309,7 @@ func threadExit(e *exec, t *thread) {
 	} else {
 		e.dispatch(t, OpExit, 0)
 	}
-	raceDisable()
 	close(t.exited)
-	raceEnable()
 }
 
 //go:norace
@@ -559,6 +542,7 @@ func Go(f func()) {
 	}
 	t := e.newThread(e.cur.id, callerName(2), false)
 	e.startThread(t, f)
+	e.hbOp(nil, OpGo)
 	point(OpGo, nil)
 }
 
@@ -572,6 +556,7 @@ func GoApp(name string, f func()) *Thread {
 	}
 	t := e.newThread(e.cur.id, name, true)
 	e.startThread(t, f)
+	e.hbOp(nil, OpGo)
 	point(OpGo, nil)
 	return &Thread{t}
 }
